@@ -312,27 +312,28 @@ func c18Hosts(cfg *c18Cfg, thorough bool) []c18Host {
 		{"other.test", "unrelated"}, {"xa.example.com", "lookalike"}, {"127.0.0.1", "ip"},
 		{"a.example.com.evil.test", "embedded"}, // a configured domain occurs inside the host without being its suffix
 	}
-	if len(cfg.Domains) == 0 && !thorough {
-		bases = bases[:3]
+	if len(cfg.Domains) == 0 {
+		bases = bases[:3] // no domain configured: the host cannot matter (Domain must be absent); a few shapes suffice
 	}
 	var out []c18Host
 	for bi, b := range bases {
 		for pi, port := range []string{"", ":8443"} {
-			if !thorough && pi != (bi+cfg.ID)%2 && b.shape != "sub" && b.shape != "deep" {
-				continue // quick tier: one port variant per host shape (alternating over configurations), both for the nested sub-domains
+			if pi != (bi+cfg.ID)%2 && b.shape != "sub" && b.shape != "deep" && !(thorough && b.shape == "exact") {
+				continue // one port variant per host shape (alternating over configurations), both for the nested sub-domains
 			}
 			h := b.h + port
 			shape := b.shape
 			if port != "" {
 				shape += "+port"
 			}
+			nested := b.shape == "sub" || b.shape == "deep"
 			switch {
-			case cfg.ReverseProxy && (thorough || (bi+pi)%2 == 0):
+			case cfg.ReverseProxy && (bi+cfg.ID/2)%2 == 0:
 				out = append(out, c18Host{Host: "internal.lan:4180", XFH: h, Shape: shape + "/xfh"})
-				if thorough {
+				if thorough && nested {
 					out = append(out, c18Host{Host: h, Shape: shape})
 				}
-			case !cfg.ReverseProxy && (bi+pi)%4 == 1:
+			case !cfg.ReverseProxy && (bi+2*pi+cfg.ID/2)%4 == 1:
 				// forwarding header present but reverse-proxy mode off: it must not take part in the rule
 				out = append(out, c18Host{Host: h, XFH: "b.a.example.com", Shape: shape + "/xfh-ignored"})
 			default:
@@ -504,6 +505,14 @@ func c18CheckLine(run *vfRun, cfg *c18Cfg, effHost, shape, step string, req *vfR
 	for _, d := range wantDom {
 		if d == gotDom && (d != "") == l.Has["domain"] {
 			okDom = true
+		}
+	}
+	if okDom && rule == "ambiguous" {
+		// recorded, not judged: which reading the code follows where plain-suffix and label-boundary matching disagree
+		if gotDom == wantDom[0] {
+			run.Count("ambiguous_host_plain_suffix_reading_observed", 1)
+		} else {
+			run.Count("ambiguous_host_label_boundary_reading_observed", 1)
 		}
 	}
 	if !okDom {
